@@ -131,38 +131,47 @@ Definition art_has (a : N) (s : astore) : bool :=
   match art_get a s with Some _ => true | None => false end.
 
 (* handoff.  md = summary_markdown given; art = summary_artifact_id given; bundle_ok = whether
-   write_bundle_v1 succeeds (environment).  `check_art` = the existence test of a caller-given
-   artifact id: false = the code as found (id recorded verbatim), true = the repaired code. *)
-Definition handoff_gen (check_art : bool) (view : list frame) (l : log) (arts : astore) (parent : N)
+   write_bundle_v1 succeeds (environment).  Two repairs are switchable so that the code as found stays
+   expressible:
+     chk = the existence test of a caller-given artifact id, placed right after the summary test
+           (false = as found: the id is recorded verbatim);
+     bf  = the bundle is written BEFORE create_continuity (false = as found: after it, so a failing
+           artifact write leaves the child's seq-0 frame behind). *)
+Definition handoff_gen (chk bf : bool) (view : list frame) (l : log) (arts : astore) (parent : N)
   (sel : selector) (md : bool) (art : option N) (bundle_ok : bool) (fr : fresh)
   : log * astore * result resp :=
   match md, art with
   | false, None => (l, arts, Err ENoSummary)
   | _, _ =>
+    if match art with Some a => chk && negb (art_has a arts) | None => false end
+    then (l, arts, Err ENoArtifact)
+    else
     match resolve_cut sel view with
     | Err e => (l, arts, Err e)
     | Ok (cut, om) =>
       let child := f_child fr in
       match art with
       | Some a =>
-        if check_art && negb (art_has a arts) then (l, arts, Err ENoArtifact)
-        else (l ++ [created_frame child (f_e0 fr); handoff_frame child (f_e1 fr) parent cut om (Some a) md],
-              arts, Ok (child, cut, om))
+        (l ++ [created_frame child (f_e0 fr); handoff_frame child (f_e1 fr) parent cut om (Some a) md],
+         arts, Ok (child, cut, om))
       | None =>
-        (* create_continuity has already appended the seq-0 frame when the bundle is written *)
         if bundle_ok
         then (l ++ [created_frame child (f_e0 fr);
                     handoff_frame child (f_e1 fr) parent cut om (Some (f_art fr)) md],
               (f_art fr, [parent; cut; opt om]) :: arts, Ok (child, cut, om))
-        else (l ++ [created_frame child (f_e0 fr)], arts, Err EBundle)
+        else ((if bf then l else l ++ [created_frame child (f_e0 fr)]), arts, Err EBundle)
       end
     end
   end.
-(* the code as found *)
-Definition handoff_view := handoff_gen false.
+(* the code as found / as repaired *)
+Definition handoff_unfixed := handoff_gen false false.
+Definition handoff_view := handoff_gen true true.
 Definition handoff_op (l : log) (arts : astore) (parent : N) (sel : selector) (md : bool)
   (art : option N) (bundle_ok : bool) (fr : fresh) : log * astore * result resp :=
   handoff_view (cstream parent l) l arts parent sel md art bundle_ok fr.
+Definition handoff_op_unfixed (l : log) (arts : astore) (parent : N) (sel : selector) (md : bool)
+  (art : option N) (bundle_ok : bool) (fr : fresh) : log * astore * result resp :=
+  handoff_unfixed (cstream parent l) l arts parent sel md art bundle_ok fr.
 
 (* ---------- specification vocabulary used by the theorems ---------- *)
 (* om is the id of the positionally last message frame with seq <= cut (None iff there is none) *)
@@ -186,6 +195,7 @@ Record case := {
   c_view_truth : bool;         (* no stale-prefix fault is pending: view must equal the truth stream *)
   c_arts : astore;             (* caller-visible artifacts that exist (id -> content, content unused) *)
   c_check_art : bool;          (* which handoff the implementation is expected to follow *)
+  c_bundle_first : bool;
   c_parent : N;
   c_sel : selector;
   c_op : opk;
@@ -211,7 +221,7 @@ Definition run_case (c : case) : log * astore * result resp :=
   | OpBranch => let '(l, r) := branch_view (c_view c) (c_log c) (c_parent c) (c_sel c) (c_fresh c) in
                 (l, c_arts c, r)
   | OpHandoff md art bok =>
-    handoff_gen (c_check_art c) (c_view c) (c_log c) (c_arts c) (c_parent c) (c_sel c) md art bok (c_fresh c)
+    handoff_gen (c_check_art c) (c_bundle_first c) (c_view c) (c_log c) (c_arts c) (c_parent c) (c_sel c) md art bok (c_fresh c)
   end.
 
 (* observation: result; the frames appended to the log; the bundle written (if any); whether the
